@@ -1,6 +1,11 @@
 import Driver.FilterIO
 open Driver Driver.FilterIO AGH AGH.Filter
 
+/-- reload mode: the configuration and engines of the current block -/
+structure Block where
+  cs : Case
+  e : Engines
+
 /-- One case.  The model runs on Layer B engines (computed from the rule texts);
 the real urlfilter verdicts shipped with the case are only a cross-check. -/
 def stepQ (fs : List String) : Option String := do
@@ -20,9 +25,47 @@ def stepQ (fs : List String) : Option String := do
       let agree := mOut == renderOutcome obs
       pure (verdict agree (C01.check e cs.conf cs.up cs.q obs) shown)
 
-def step (_ : Unit) (line : String) : Unit × String :=
-  match splitTab line with
-  | "C01.q" :: rest => ((), (stepQ rest).getD "bad-op")
-  | _ => ((), "bad-op")
+/-- `C01.rl nfill <case>`: start of a reload block -/
+def stepRL (fs : List String) : Option (Block × String) := do
+  let (ins, impl) ← splitArrow fs
+  match ins with
+  | nfill :: rest =>
+    let n ← nfill.toNat?
+    let (cs0, _) ← parseCase.run rest
+    let cs := cs0.withFiller n
+    let e ← ruleEnginesOf cs
+    pure ({ cs := cs, e := e }, verdict (impl == ["started"]) none "started")
+  | [] => none
 
-def main : IO Unit := run step ()
+/-- `C01.rq name type par reps`: every outcome observed while the engines were
+being rebuilt must be the model's (the rule set is unchanged) and satisfy the spec -/
+def stepRQ (b : Block) (fs : List String) : Option String := do
+  let (ins, impl) ← splitArrow fs
+  match ins with
+  | [qn, qt, _, _] =>
+    let q : Query := { name := ← hexDecode qn, qtype := ← qt.toNat? }
+    let m := handle b.e b.cs.conf b.cs.up q
+    let mOut := renderOutcome m
+    let shown := "reload:" ++ classOf b.cs.conf m ++ "\t" ++ mOut
+    if impl.head? == some "PANIC" then pure (verdict false (some "impl-panic") shown)
+    else
+      let (obs, _) ← outcomesP.run impl
+      let agree := !obs.isEmpty && obs.all (fun o => renderOutcome o == mOut)
+      let bad := obs.findSome? (fun o => C01.check b.e b.cs.conf b.cs.up q o)
+      pure (verdict agree (bad.map (fun w => "during-reload:" ++ w)) shown)
+  | _ => none
+
+def step (st : Option Block) (line : String) : Option Block × String :=
+  match splitTab line with
+  | "C01.q" :: rest => (st, (stepQ rest).getD "bad-op")
+  | "C01.rl" :: rest =>
+    match stepRL rest with
+    | some (b, out) => (some b, out)
+    | none => (none, "bad-op")
+  | "C01.rq" :: rest =>
+    match st with
+    | some b => (st, (stepRQ b rest).getD "bad-op")
+    | none => (st, "bad-op")
+  | _ => (st, "bad-op")
+
+def main : IO Unit := run step none
